@@ -32,6 +32,9 @@ STACKS = [
     ("hash", [("mc1", 11211)], {}),
     ("hashpooled", [("mc1", 11211)], {"max_pool_size": 1}),
     ("hashpooled", [("mc1", 11211), ("mc2", 11211)], {"max_pool_size": 2}),
+    # several servers without pooling: a multi-key call has one connection per server in flight when the interrupt comes
+    ("hash", [("mc1", 11211), ("mc2", 11211), ("mc3", 11211)], {}),
+    ("hash", [("mc1", 11211), ("mc2", 11211)], {"ignore_exc": True}),
     ("pooled", [("mc1", 11211)], {"max_pool_size": 1, "ignore_exc": True}),
     ("client", [("mc1", 11211)], {"ignore_exc": True}),
     # an idle connection expires at the next checkout: its close() is one more interruption point
